@@ -100,6 +100,35 @@ theorem finishDecision_gateModel (o : Oracle) (cfg : GuardCfg) (req : Request) (
     have hp' : (raw.decision == "permit") = false := by simpa using hp
     simp [finishDecision, hp']
 
+/-! ### what the sinks are handed -/
+
+/-- the argument a sink call carries: the audit record `logger_sink.log` is handed (a seven-key dict), the labels dict
+    `metrics.inc` / `metrics.observe` are handed -/
+def encEvent : Event → PyVal
+  | .audit env decision allowed ruleId policyId reason obligations =>
+    .dict [("env", env), ("decision", .str decision), ("allowed", .bool allowed), ("rule_id", ruleId), ("policy_id", policyId),
+           ("reason", .str reason), ("obligations", .list obligations)]
+  | .metricInc decision => .dict [("decision", .str decision)]
+  | .metricObserve decision => .dict [("decision", .str decision)]
+
+/-- the events of `finishDecision` as a function of its Decision (the statement of `Rbacx.C11.c11_one_audit_one_metric`) -/
+theorem finishDecision_events (o : Oracle) (cfg : GuardCfg) (req : Request) (env : PyVal) (raw : Raw) :
+    (finishDecision o cfg req env raw).2 =
+      (if cfg.hasMetrics then [Event.metricInc (finishDecision o cfg req env raw).1.effect,
+                               Event.metricObserve (finishDecision o cfg req env raw).1.effect] else []) ++
+      (if cfg.hasLogger then
+        [Event.audit env (finishDecision o cfg req env raw).1.effect (finishDecision o cfg req env raw).1.allowed
+          (finishDecision o cfg req env raw).1.ruleId (finishDecision o cfg req env raw).1.policyId
+          (finishDecision o cfg req env raw).1.reason (finishDecision o cfg req env raw).1.obligations] else []) := rfl
+
+theorem dictOf_labels (a : PyVal) : dictOf [("decision", a)] = .dict [("decision", a)] := by
+  simp [dictOf, setItem, setKV]
+
+theorem dictOf_payload (a b c d e f g : PyVal) :
+    dictOf [("env", a), ("decision", b), ("allowed", c), ("rule_id", d), ("policy_id", e), ("reason", f), ("obligations", g)] =
+      .dict [("env", a), ("decision", b), ("allowed", c), ("rule_id", d), ("policy_id", e), ("reason", f), ("obligations", g)] := by
+  simp [dictOf, setItem, setKV]
+
 /-! ### what the source reads from a raw decision dict -/
 
 theorem strO_str (o : Oracle) (s : String) : strO o (.str s) = .str s := rfl
